@@ -188,12 +188,24 @@ def _eb(x):
     return e
 
 
+def _nd_operand(self, o, name):
+    """symbolic scalar (op) real ndarray: numpy would try a ufunc on the proxy; route through the array model instead"""
+    import numpy as _rnp
+    if isinstance(o, _rnp.ndarray) and o.ndim >= 1:
+        from engine import symnp
+        refl = name.replace("__r", "__", 1) if name.startswith("__r") and name not in ("__rshift__",) else "__r" + name[2:]
+        h = getattr(symnp.SArr(list(o.ravel().tolist()), o.dtype, o.shape if o.ndim > 1 else None), refl, None)
+        if h is not None:
+            return h(self)
+    return NotImplemented
+
+
 def _ni(f):
     def g(self, o):
         try:
             return f(self, o)
         except TypeError:
-            return NotImplemented
+            return _nd_operand(self, o, f.__name__)
     g.__name__ = f.__name__
     return g
 
@@ -493,26 +505,26 @@ class SReal:
             return SReal(z3.RealVal(x))
         raise TypeError(type(x))
 
-    def _b(self, o, f):
+    def _b(self, o, f, name=None):
         try:
             o = SReal.of(o)
         except TypeError:
-            return NotImplemented
+            return _nd_operand(self, o, name) if name else NotImplemented
         return SReal(f(self.v, o.v), z3.Or(self.nan, o.nan))
 
     def __add__(self, o):
-        return self._b(o, lambda a, b: a + b)
+        return self._b(o, lambda a, b: a + b, "__add__")
 
     __radd__ = __add__
 
     def __sub__(self, o):
-        return self._b(o, lambda a, b: a - b)
+        return self._b(o, lambda a, b: a - b, "__sub__")
 
     def __rsub__(self, o):
-        return self._b(o, lambda a, b: b - a)
+        return self._b(o, lambda a, b: b - a, "__rsub__")
 
     def __mul__(self, o):
-        return self._b(o, lambda a, b: a * b)
+        return self._b(o, lambda a, b: a * b, "__mul__")
 
     __rmul__ = __mul__
 
